@@ -126,3 +126,110 @@ theorem iterEntries_spec {m : Nat} (E : Env) : ∀ (f g : Nat) (l : HLink) (s : 
       nd.links nd.keys nd.vals cs s1 hg1 hval.1 hval.2 hseq
 
 end Mast.Ptr
+
+/-! ## on the state, `iterEntries` is `iterAll` -/
+namespace Mast.Ptr
+open Mast.Heap
+
+/-- same outcome and end state, the value forgotten (a panic of the left side is not constrained:
+    `iterEntries` also models the index panic of `node.Value[i]` on a malformed node) -/
+def Erases {α : Type} (r : Res α) (r' : Res Unit) : Prop :=
+  match r with
+  | .ok _ s' => r' = .ok () s'
+  | .err s' => r' = .err s'
+  | .oof => r' = .oof
+  | .stuck => r' = .stuck
+  | .panic => True
+
+theorem erases_bind {α β : Type} {x : M α} {x' : M Unit} {f : α → M β} {f' : Unit → M Unit} {s : PS}
+    (hx : Erases (x s) (x' s)) (hf : ∀ a s1, Erases (f a s1) (f' () s1)) :
+    Erases ((x >>= f) s) ((x' >>= f') s) := by
+  show Erases (M.bind x f s) (M.bind x' f' s)
+  unfold M.bind
+  unfold Erases at hx
+  cases hxs : x s with
+  | ok a s1 => rw [hxs] at hx; simp only [] at hx; rw [hx]; exact hf a s1
+  | err s1 => rw [hxs] at hx; simp only [] at hx; rw [hx]; simp [Erases]
+  | oof => rw [hxs] at hx; simp only [] at hx; rw [hx]; simp [Erases]
+  | stuck => rw [hxs] at hx; simp only [] at hx; rw [hx]; simp [Erases]
+  | panic => simp [Erases]
+
+theorem erases_bind_same {α β : Type} {x : M α} {f : α → M β} {f' : α → M Unit} {s : PS}
+    (hf : ∀ a s1, Erases (f a s1) (f' a s1)) :
+    Erases ((x >>= f) s) ((x >>= f') s) := by
+  show Erases (M.bind x f s) (M.bind x f' s)
+  unfold M.bind
+  cases x s with
+  | ok a s1 => exact hf a s1
+  | err s1 => simp [Erases]
+  | oof => simp [Erases]
+  | stuck => simp [Erases]
+  | panic => simp [Erases]
+
+theorem entryAt_bind {β : Type} (ks vs : List Nat) (f : List (Nat × Nat) → M β) (s : PS) :
+    (entryAt ks vs >>= f) s = .panic ∨ ∃ here, (entryAt ks vs >>= f) s = f here s := by
+  show M.bind (entryAt ks vs) f s = .panic ∨ ∃ here, M.bind (entryAt ks vs) f s = f here s
+  unfold M.bind
+  cases ks with
+  | nil => exact Or.inr ⟨[], rfl⟩
+  | cons k ks =>
+    cases vs with
+    | nil => exact Or.inl rfl
+    | cons v vs => exact Or.inr ⟨[(k, v)], rfl⟩
+
+theorem iterEntriesLinks_erase (G : HLink → M (List (Nat × Nat))) (G' : HLink → M Unit)
+    (hG : ∀ l s, Erases (G l s) (G' l s)) :
+    ∀ (ls : List HLink) (ks vs : List Nat) (s : PS),
+      Erases (iterEntriesLinks G ls ks vs s) (iterLinks G' ls s) := by
+  intro ls
+  induction ls with
+  | nil => intro ks vs s; simp [iterEntriesLinks, iterLinks, Erases, pure, M.pure]
+  | cons l ls ih =>
+    intro ks vs s
+    have htail : ∀ (sub : List (Nat × Nat)) (s1 : PS),
+        Erases ((do
+          let here ← entryAt ks vs
+          let rest ← iterEntriesLinks G ls ks.tail vs.tail
+          pure (sub ++ here ++ rest) : M (List (Nat × Nat))) s1) (iterLinks G' ls s1) := by
+      intro sub s1
+      rcases entryAt_bind ks vs (fun here => do
+          let rest ← iterEntriesLinks G ls ks.tail vs.tail
+          pure (sub ++ here ++ rest)) s1 with h | ⟨here, h⟩
+      · rw [h]; simp [Erases]
+      · rw [h]
+        have := ih ks.tail vs.tail s1
+        show Erases (M.bind (iterEntriesLinks G ls ks.tail vs.tail) (fun rest => pure (sub ++ here ++ rest)) s1) _
+        unfold M.bind
+        unfold Erases at this
+        cases hr : iterEntriesLinks G ls ks.tail vs.tail s1 with
+        | ok a s2 => rw [hr] at this; simp only [] at this; rw [this]; simp [Erases, pure, M.pure]
+        | err s2 => rw [hr] at this; simp only [] at this; rw [this]; simp [Erases]
+        | oof => rw [hr] at this; simp only [] at this; rw [this]; simp [Erases]
+        | stuck => rw [hr] at this; simp only [] at this; rw [this]; simp [Erases]
+        | panic => simp [Erases]
+    cases l with
+    | nil =>
+      unfold iterEntriesLinks iterLinks
+      show Erases (M.bind (pure []) _ s) _
+      exact htail [] s
+    | ptr a =>
+      unfold iterEntriesLinks iterLinks
+      exact erases_bind (hG (.ptr a) s) (fun sub s1 => htail sub s1)
+    | ref n =>
+      unfold iterEntriesLinks iterLinks
+      exact erases_bind (hG (.ref n) s) (fun sub s1 => htail sub s1)
+
+/-- the walk that yields the entries is, on the state, the walk `Sys.apply` runs for `.iter` -/
+theorem iterEntries_erase (E : Env) : ∀ (f : Nat) (l : HLink) (s : PS),
+    Erases (iterEntries E f l s) (iterAll E f l s) := by
+  intro f
+  induction f with
+  | zero => intro l s; simp [iterEntries, iterAll, Erases, oofE]
+  | succ f ih =>
+    intro l s
+    unfold iterEntries iterAll
+    refine erases_bind_same (fun a s1 => ?_)
+    refine erases_bind_same (fun nd s2 => ?_)
+    exact iterEntriesLinks_erase _ _ (fun c s => ih c s) nd.links nd.keys nd.vals s2
+
+end Mast.Ptr
